@@ -840,13 +840,17 @@ func runC04(w *W) {
 		r := NewRng(w.Seed, uint64(idx), 46)
 		g := &Gen{r: r}
 		var s string
-		switch r.Intn(6) {
+		switch r.Intn(9) {
 		case 0:
 			s = g.createTable()
 		case 1:
 			s = g.alter()
 		case 2:
 			s = g.insert()
+		case 3, 4:
+			s = g.createView() // views with every storage clause (ENGINE, TTL, PARTITION BY, POPULATE, TO …)
+		case 5, 6:
+			s = g.aliasedShapes() // every expression kind with plain and special (%, spaces, unicode) aliases
 		default:
 			s = g.statement(3)
 		}
